@@ -227,7 +227,8 @@ def generate(workdir, repo, scratch, env, tier, seed, log=print):
     shutil.copy(os.path.join(repo, "Cargo.lock"), os.path.join(nd, "Cargo.lock"))
     if repo != "/repo":
         ct = os.path.join(nd, "Cargo.toml")
-        open(ct, "w").write(open(ct).read().replace('"/repo/', '"' + repo.rstrip("/") + "/"))
+        txt = open(ct).read().replace('"/repo/', '"' + repo.rstrip("/") + "/")
+        open(ct, "w").write(txt)
     open(os.path.join(nd, "src", "c01_apps.rs"), "w").write(src)
     e = dict(env)
     e["CARGO_TARGET_DIR"] = os.path.join(scratch, "native-target")
